@@ -84,7 +84,37 @@ BagSize(b) == LET RECURSIVE S(_) S(D) == IF D = {} THEN 0 ELSE LET x == CHOOSE x
 NewThread(pc, visits, gas, depth) ==
     [pc |-> pc, st |-> "ready", visits |-> visits, gas |-> gas, gasBefore |-> gas, depth |-> depth,
      lastOk |-> TRUE, lastHalts |-> FALSE, lastOff |-> -1, operand |-> NoWord, looked |-> FALSE,
-     forked |-> -1, demandErr |-> FALSE]
+     forked |-> -1, demandErr |-> FALSE, cs |-> << >>]
+
+(* What the specification itself knows about the operand stack of a thread: for every item either the     *)
+(* constant it must be (below 2^24: anything else cannot be an offset into the code) or Unk.  Computed     *)
+(* from the code bytes along the executed path - PUSH immediates, PC, CODESIZE, DUP / SWAP / POP and sums,  *)
+(* differences and products of known items - so that the target of a jump whose operand the code computes *)
+(* (PC-relative jumps, jump tables) is known independently of what the tool says it found.                 *)
+Unk == -1
+Cap(v) == IF v >= 0 /\ v < 16777216 THEN v ELSE Unk
+RECURSIVE ImmVal(_, _, _)
+ImmVal(off, n, acc) == IF acc = Unk \/ n = 0 THEN acc ELSE ImmVal(off + 1, n - 1, IF acc > 65535 THEN Unk ELSE acc * 256 + cfg.code[off + 1])
+AbsStep(cs, off) ==
+    LET b == OpAt(off)
+        n == Len(cs)
+        at(k) == IF k <= n THEN cs[n - k + 1] ELSE Unk
+        drop(k) == SubSeq(cs, 1, IF n >= k THEN n - k ELSE 0)
+        x == at(1)
+        y == at(2)
+    IN CASE KindAt(off) = "push" -> Append(cs, ImmVal(off + 1, PushLen(b), 0))
+         [] KindAt(off) # "op" -> cs
+         [] b = PUSH0 -> Append(cs, 0)
+         [] b = PC -> Append(cs, Cap(off))
+         [] b = CODESIZE -> Append(cs, Cap(cfg.len))
+         [] b \in 128..143 -> Append(cs, at(b - 127))
+         [] b \in 144..159 -> LET k == b - 143 IN IF n >= k + 1 THEN [cs EXCEPT ![n] = cs[n - k], ![n - k] = cs[n]] ELSE cs
+         [] b = POP -> drop(1)
+         [] b = ADD -> Append(drop(2), IF x >= 0 /\ y >= 0 THEN Cap(x + y) ELSE Unk)
+         [] b = SUB -> Append(drop(2), IF x >= 0 /\ y >= 0 THEN Cap(x - y) ELSE Unk)
+         [] b = MUL -> Append(drop(2), IF x >= 0 /\ y >= 0 THEN (IF x = 0 \/ y = 0 THEN 0 ELSE IF y <= 16777215 \div x THEN Cap(x * y) ELSE Unk) ELSE Unk)
+         [] OTHER -> drop(PopsAt(off)) \o [i \in 1..PushesAt(off) |-> Unk]
+AbsTop(cs) == IF Len(cs) >= 1 THEN cs[Len(cs)] ELSE Unk
 
 Start(code, l, f, g, perm) ==
     /\ cfg' = MkCfg(code, l, f, g, perm)
@@ -109,7 +139,8 @@ Operand(w) ==
 Fork(t, c, target, reported) ==
     LET p == thr[t] IN
     /\ t \in DOMAIN thr /\ c \notin DOMAIN thr
-    /\ thr' = thr @@ (c :> NewThread(target, Bump(p.visits, p.pc), p.gas, p.depth - 2))
+    /\ thr' = thr @@ (c :> [NewThread(target, Bump(p.visits, p.pc), p.gas, p.depth - 2)
+                               EXCEPT !.cs = SubSeq(p.cs, 1, IF Len(p.cs) >= 2 THEN Len(p.cs) - 2 ELSE 0)])
     /\ forks' = [forks EXCEPT ![target + 1] = @ + 1]
     /\ created' = created + 1
     /\ pend' = [pend EXCEPT !.forked = target]
@@ -156,6 +187,7 @@ Exec(t, o) ==
     /\ thr' = [thr EXCEPT ![t] =
                  [p EXCEPT !.st = "executed", !.visits = v2, !.gasBefore = p.gas, !.gas = gas2,
                            !.depth = IF o.ok THEN p.depth - PopsAt(off) + PushesAt(off) ELSE p.depth,
+                           !.cs = IF o.ok THEN AbsStep(p.cs, off) ELSE p.cs,
                            !.lastOk = o.ok, !.lastHalts = HaltsAt(off), !.lastOff = off,
                            !.operand = pend.operand, !.looked = pend.looked, !.forked = pend.forked]]
     /\ errs' = IF o.recorded THEN BagAdd(errs, [kind |-> o.kind, loc |-> o.loc]) ELSE errs
@@ -167,6 +199,10 @@ Exec(t, o) ==
                  !.c03_visits  = v2[off + 1] <= cfg.L,
                  !.c03_gas     = p.gas <= cfg.G,
                  !.c03_account = o.ok => o.gasAfter = p.gas + o.cost,
+                 \* C08: the constant a jump finds for its target is the one the code computes (where the
+                 \* specification can tell from the code bytes: AbsStep)
+                 !.c08_edge    = ((IsJumpAt(off) \/ IsJumpIAt(off)) /\ AbsTop(p.cs) >= 0 /\ pend.looked /\ pend.operand # NoWord)
+                                     => WordVal(pend.operand) = AbsTop(p.cs),
                  \* C17: errors the semantics demand are raised ...
                  !.c17_demand  = /\ serr => (~o.ok /\ o.recorded)
                                  /\ (badj /\ ~cfg.permissive) => anyRecorded
